@@ -201,6 +201,9 @@ impl PathParser {
                 self.update_position(self.start_pos.ok_or_else(|| {
                     SvgdxError::InvalidData("Cannot 'z' without start position".to_owned())
                 })?);
+                // closepath takes no arguments, so it cannot be repeated implicitly:
+                // whatever follows must begin with a command letter
+                self.command = None;
             }
             'C' => {
                 let _cp1 = self.tokens.read_coord()?; // control point 1
